@@ -1,8 +1,215 @@
-/- line-protocol handlers for the C18 models (stub: nothing modelled yet) -/
-import FontVerif.Model.Base
-namespace FontVerif.Drv.C18
-open FontVerif
+/- line-protocol handlers for the C18 models (Model/TableKeyed, GlyphKeyed, PatchRound)
 
-def handle (_cmd : String) (_args : List String) : Option String := none
+requests (one line, space separated):
+  tk    <dec> <info> <patchhex> <table>…
+  gk    <dec> <n> (<info> <patchhex>)×n <table>…
+  round <dec> <ninv> <info>×ninv <nnon> <info>×nnon <nst> (<uri> <A|P:hex>)×nst <table>…
+  splice <S|L|1|2|3|4> <maxGid> <datahex> <noffs> <off>×noffs <nrepl> (<gid> <hex>)×nrepl
+where
+  <dec>   = n | <k>:<Init|Stream|Dict|Max|Excess|Io>   scripted decoder: identity (base ++ stream when a
+            base is given), MaxSizeExceeded if longer than maxLen, fault on call k
+  <info>  = <I|X>,<compat hex>,<bit>,<uri>
+  <table> = <tag as 8 hex digits>=<hex>
+responses
+  ok [calls=N] <tag>=<len>:<fnv1a64>[:<hex> if len ≤ 48]…   (head.checksumAdjustment zeroed)
+  err <PatchingError>
+  round appends ` | <uri>=A|P:<len>:<fnv>…`
+-/
+import FontVerif.Model.PatchRound
+namespace FontVerif.Drv.C18
+open FontVerif FontVerif.Ift
+
+def us (s : String) : String := s.map (fun c => if c = ' ' then '_' else c)
+
+def hex8 (t : Nat) : String := toHex (beBytes 4 t)
+
+def rerrStr : RErr → String
+  | .outOfBounds => "OutOfBounds"
+  | .nullOffset => "NullOffset"
+  | .invalidArrayLen => "InvalidArrayLen"
+  | .tableIsMissing t => s!"TableIsMissing({hex8 t})"
+  | .malformedData m => s!"MalformedData({us m})"
+
+def perrStr : PErr → String
+  | .patchParsingFailed e => s!"PatchParsingFailed({rerrStr e})"
+  | .fontParsingFailed e => s!"FontParsingFailed({rerrStr e})"
+  | .serializationError f => s!"SerializationError({f})"
+  | .incompatiblePatch => "IncompatiblePatch"
+  | .nonIncrementalFont => "NonIncrementalFont"
+  | .invalidPatch m => s!"InvalidPatch({us m})"
+  | .emptyPatchList => "EmptyPatchList"
+  | .internalError => "InternalError"
+  | .missingPatches => "MissingPatches"
+  | .unmodelled w => s!"UNMODELLED({us w})"
+
+def fnv (bs : Bytes) : String :=
+  let h : UInt64 := bs.foldl (fun h b => (h ^^^ UInt64.ofNat b) * 0x100000001b3) 0xcbf29ce484222325
+  toHex (beBytes 8 h.toNat)
+
+def canonHead (t : Tag) (d : Bytes) : Bytes :=
+  if t = TAG_head ∧ d.length ≥ 12 then d.take 8 ++ [0, 0, 0, 0] ++ d.drop 12 else d
+
+def digest (d : Bytes) : String :=
+  let base := s!"{d.length}:{fnv d}"
+  if d.length ≤ 48 then s!"{base}:{toHex d}" else base
+
+def tableStr (td : Tag × Bytes) : String :=
+  s!"{hex8 td.1}={digest (canonHead td.1 td.2)}"
+
+def fontStr (f : Font) : String := " ".intercalate (f.map tableStr)
+
+def parseDErr : String → Option DErr
+  | "Init" => some .initFailure | "Stream" => some .invalidStream | "Dict" => some .invalidDictionary
+  | "Max" => some .maxSizeExceeded | "Excess" => some .excessInputData | "Io" => some .ioError
+  | _ => none
+
+/-- the scripted decoder shared with the harness (`ScriptedDecoder` in c18.rs) -/
+def scripted (fault : Option (Nat × DErr)) : Decoder := fun i stream base maxLen =>
+  let body : Except DErr Bytes :=
+    let out := match base with | none => stream | some b => b ++ stream
+    if out.length > maxLen then .error .maxSizeExceeded else .ok out
+  match fault with
+  | some (k, e) => if i = k then .error e else body
+  | none => body
+
+def parseDec (s : String) : Option Decoder :=
+  if s = "n" then some (scripted none) else
+  match s.splitOn ":" with
+  | [k, kind] => do
+    let k ← k.toNat?
+    let e ← parseDErr kind
+    some (scripted (some (k, e)))
+  | _ => none
+
+def parseInfo (s : String) : Option PatchInfo :=
+  match s.splitOn "," with
+  | [t, c, b, u] => do
+    let iftx ← (if t = "I" then some false else if t = "X" then some true else none)
+    let compat ← parseHex? c
+    let bit ← b.toNat?
+    some { uri := u, iftx := iftx, compat := compat, bit := bit }
+  | _ => none
+
+def parseTable (s : String) : Option (Tag × Bytes) :=
+  match s.splitOn "=" with
+  | [t, d] => do
+    let tb ← parseHex? t
+    if tb.length ≠ 4 then none else
+    let db ← parseHex? d
+    some (beValue tb, db)
+  | _ => none
+
+def parseFont (ss : List String) : Option Font := ss.mapM parseTable
+
+/-- take `n` (info, patch) pairs -/
+def takePairs : Nat → List String → Option (List (PatchInfo × Bytes) × List String)
+  | 0, rest => some ([], rest)
+  | n + 1, i :: p :: rest => do
+    let info ← parseInfo i
+    let pb ← parseHex? p
+    let (more, rest') ← takePairs n rest
+    some ((info, pb) :: more, rest')
+  | _, _ => none
+
+def takeInfos : Nat → List String → Option (List PatchInfo × List String)
+  | 0, rest => some ([], rest)
+  | n + 1, i :: rest => do
+    let info ← parseInfo i
+    let (more, rest') ← takeInfos n rest
+    some (info :: more, rest')
+  | _, _ => none
+
+def parseStatus (s : String) : Option UriStatus :=
+  if s = "A" then some .applied else
+  match s.splitOn ":" with
+  | ["P", h] => (parseHex? h).map .pending
+  | _ => none
+
+def takeStatus : Nat → List String → Option (StatusMap × List String)
+  | 0, rest => some ([], rest)
+  | n + 1, u :: s :: rest => do
+    let st ← parseStatus s
+    let (more, rest') ← takeStatus n rest
+    some ((u, st) :: more, rest')
+  | _, _ => none
+
+def statusStr (kv : String × UriStatus) : String :=
+  match kv.2 with
+  | .applied => s!"{kv.1}=A"
+  | .pending d => s!"{kv.1}=P:{d.length}:{fnv d}"
+
+def resultStr : Except PErr Font → String
+  | .ok f => s!"ok {fontStr f}"
+  | .error e => s!"err {perrStr e}"
+
+def parseOffsetType : String → Option OffsetType
+  | "S" => some .shortDivByTwo | "L" => some .long | "1" => some .cffOne | "2" => some .cffTwo
+  | "3" => some .cffThree | "4" => some .cffFour | _ => none
+
+def takeRepl : Nat → List String → Option (List (Nat × Bytes) × List String)
+  | 0, rest => some ([], rest)
+  | n + 1, g :: h :: rest => do
+    let g ← g.toNat?
+    let d ← parseHex? h
+    let (more, rest') ← takeRepl n rest
+    some ((g, d) :: more, rest')
+  | _, _ => none
+
+def handle (cmd : String) (args : List String) : Option String :=
+  match cmd, args with
+  | "tk", d :: i :: p :: font => do
+    let dec ← parseDec d
+    let info ← parseInfo i
+    let pb ← parseHex? p
+    let f ← parseFont font
+    match applyTableKeyed info pb f dec with
+    | .ok (out, calls) => some s!"ok calls={calls} {fontStr out}"
+    | .error e => some s!"err {perrStr e}"
+  | "gk", d :: n :: rest => do
+    let dec ← parseDec d
+    let n ← n.toNat?
+    let (pairs, rest') ← takePairs n rest
+    let f ← parseFont rest'
+    some (resultStr (applyGlyphKeyed pairs f dec))
+  | "round", d :: ninv :: rest => do
+    let dec ← parseDec d
+    let ninv ← ninv.toNat?
+    let (inv, rest1) ← takeInfos ninv rest
+    match rest1 with
+    | nnon :: rest2 => do
+      let nnon ← nnon.toNat?
+      let (noninv, rest3) ← takeInfos nnon rest2
+      match rest3 with
+      | nst :: rest4 => do
+        let nst ← nst.toNat?
+        let (st, rest5) ← takeStatus nst rest4
+        let f ← parseFont rest5
+        let (r, st') := applyRound f inv noninv st dec
+        some s!"{resultStr r} | {" ".intercalate (st'.map statusStr)}"
+      | [] => none
+    | [] => none
+  | "splice", t :: mg :: dh :: noffs :: rest => do
+    let t ← parseOffsetType t
+    let mg ← mg.toNat?
+    let data ← parseHex? dh
+    let noffs ← noffs.toNat?
+    let offs ← parseNats? (rest.take noffs)
+    if (rest.take noffs).length ≠ noffs then none else
+    match rest.drop noffs with
+    | nr :: rest' => do
+      let nr ← nr.toNat?
+      let (repl, tail) ← takeRepl nr rest'
+      if !tail.isEmpty then none else
+      let avail : List OffsetType :=
+        match t with
+        | .shortDivByTwo | .long => [.shortDivByTwo, .long]
+        | _ => [.cffOne, .cffTwo, .cffThree, .cffFour]
+      let a : OffsetArray := { offsetType := t, available := avail, offsets := offs, data := data,
+                               missing := .internalError, getErr := .fontParsingFailed .outOfBounds }
+      match patchOffsetArray a repl mg with
+      | .ok (t', nd, no) => some s!"ok {repr t'} {digest nd} {digest no}"
+      | .error e => some s!"err {perrStr e}"
+    | [] => none
+  | _, _ => none
 
 end FontVerif.Drv.C18
